@@ -479,6 +479,49 @@ fn lint_repo() -> Vec<String> {
     found
 }
 
+/// minimise in a forked child: whatever the changed engine does while candidates are tried (abort on a
+/// double panic, stack overflow, ...) cannot take the master down; if the child dies the unshrunk
+/// violation is reported
+fn shrink_in_child(p: &dyn Prop, v: &Violation, seed: u64) -> Violation {
+    let mut fds = [0i32; 2];
+    if unsafe { libc::pipe(fds.as_mut_ptr()) } != 0 {
+        return v.clone();
+    }
+    let pid = unsafe { libc::fork() };
+    if pid < 0 {
+        return v.clone();
+    }
+    if pid == 0 {
+        unsafe { libc::close(fds[0]) };
+        let mut sh = Shrinker::new(p, &v.class, seed);
+        let small = sh.run(v);
+        let bytes = serde_json::to_vec(&small).unwrap_or_default();
+        let mut off = 0;
+        while off < bytes.len() {
+            let n = unsafe { libc::write(fds[1], bytes[off..].as_ptr() as *const libc::c_void, bytes.len() - off) };
+            if n <= 0 {
+                break;
+            }
+            off += n as usize;
+        }
+        unsafe { libc::_exit(0) };
+    }
+    unsafe { libc::close(fds[1]) };
+    let mut buf = vec![];
+    let mut chunk = [0u8; 65536];
+    loop {
+        let n = unsafe { libc::read(fds[0], chunk.as_mut_ptr() as *mut libc::c_void, chunk.len()) };
+        if n <= 0 {
+            break;
+        }
+        buf.extend_from_slice(&chunk[..n as usize]);
+    }
+    unsafe { libc::close(fds[0]) };
+    let mut status = 0i32;
+    unsafe { libc::waitpid(pid, &mut status, 0) };
+    serde_json::from_slice::<Violation>(&buf).unwrap_or_else(|_| v.clone())
+}
+
 fn write_replay(v: &Violation, minimised: bool, original_ops: usize) -> PathBuf {
     let dir = out_root().join("replays");
     let _ = std::fs::create_dir_all(&dir);
@@ -610,8 +653,7 @@ pub fn check(p: &dyn Prop, tier: Tier, seed: u64) -> i32 {
         classes_seen.insert(v.class.clone());
         // minimise, write the replay file, and make sure it reproduces in a fresh process
         let original_ops = v.case.n_ops();
-        let mut sh = Shrinker::new(p, &v.class, seed);
-        let small = sh.run(v);
+        let small = shrink_in_child(p, v, seed);
         let mut path = write_replay(&small, true, original_ops);
         let mut ok = replay_in_fresh_process(&path).map(|c| c == v.class).unwrap_or(false);
         if !ok {
